@@ -79,7 +79,7 @@ DropDup(dupf, asc) == LET P == DropDupOf(A, dupf, asc) IN
                       /\ Keep(P)
                       /\ Step([name |-> "dropdup", f |-> dupf, asc |-> asc], P, B) /\ UNCHANGED gen
 
-\* Merges take a list of 2..4 inputs named "a" (A), "b" (B), "a2", "b2" (copies of A / B with fresh tags - the
+\* Merges take a list of 1..4 inputs named "a" (A), "b" (B), "a2", "b2" (copies of A / B with fresh tags - the
 \* harness builds them from this state - so that one call can receive the same numbering ranges several times)
 Retag(T, g) == [i \in DOMAIN T |-> [T[i] EXCEPT !.tag = 1000 * g + i]]
 CopyA == Retag(A, gen + 1)
